@@ -249,6 +249,8 @@ func runC02(c *Ctx) {
 			fmt.Sprintf("operand roles do not match: receiver adds %d offered/%d known terms, argument adds %d offered/%d known terms (swapped operands invert the comparison)", rm, rk, am, ak), c.at(cmps[0]))
 	})
 
+	c.rule("C02.V3", knownWorkDoc, func() { c.knownWorkLoop() })
+
 	c.rule("C02.V2", "the checkpoint floor is findPreviousHeaderCheckpoint(prevNode.Height) with prevNode the tail of headerList", func() {
 		fn := c.fn(fnHandleHeaders)
 		findPrev := c.method("neutrino", "blockManager", "findPreviousHeaderCheckpoint")
@@ -329,4 +331,183 @@ func describeCall(in ssa.Instruction) string {
 		return cal.Field.Name()
 	}
 	return "call"
+}
+
+const knownWorkDoc = "the known chain's work is summed over every height between the tip and the fork point: the loop that accumulates the Cmp receiver runs a height counter from the list tail's height down to the fork height, leaves only on that counter's comparison with the fork height (never because the in-memory list ran out), and adds one CalcWork term on every iteration"
+
+// knownWorkLoop: see knownWorkDoc.
+func (c *Ctx) knownWorkLoop() {
+	fn := c.fn(fnHandleHeaders)
+	cmpM := c.method("math/big", "Int", "Cmp")
+	addM := c.method("math/big", "Int", "Add")
+	fetch := c.method("headerfs", "BlockHeaderStore", "FetchHeader")
+	back := c.method("headerlist", "Chain", "Back")
+	cmps := find(fn, callTo(cmpM))
+	if len(cmps) != 1 {
+		c.fail(c.nm(fn)+" | known-work loop", c.P.Pos(fn.Pos()), "expected exactly one Cmp")
+		return
+	}
+	recv := ir.CallOf(cmps[0]).Args[0]
+	var adds []ssa.Instruction
+	for _, in := range find(fn, callTo(addM)) {
+		if ir.CallOf(in).Args[0] == recv {
+			adds = append(adds, in)
+		}
+	}
+	construct := c.nm(fn) + " | known-work loop covers tip..fork"
+	if len(adds) != 1 || ir.LoopHeaderOf(adds[0].Block()) == nil {
+		c.fail(construct, c.P.Pos(fn.Pos()), fmt.Sprintf("%d accumulation site(s) of the known work inside a loop, 1 tabled", len(adds)))
+		return
+	}
+	h := ir.LoopHeaderOf(adds[0].Block())
+	// fork height: result #1 of a FetchHeader call (the one for PrevBlock)
+	isFork := func(v ssa.Value) bool {
+		return ir.DerivesFrom(v, func(x ssa.Value) bool {
+			e, ok := x.(*ssa.Extract)
+			return ok && e.Index == 1 && valIsCallTo(fetch)(e.Tuple)
+		})
+	}
+	// linear form a*T + b*F + k over T = height of headerList.Back() and F =
+	// fork height (result #1 of FetchHeader)
+	type lin struct {
+		t, f, k int64
+		ok      bool
+	}
+	nodeHeight := c.field("headerlist", "Node", "Height")
+	var linOf func(v ssa.Value, depth int) lin
+	linOf = func(v ssa.Value, depth int) lin {
+		if depth > 8 {
+			return lin{}
+		}
+		if k, isC := ir.ConstInt(v); isC {
+			return lin{0, 0, k, true}
+		}
+		switch x := v.(type) {
+		case *ssa.Convert:
+			return linOf(x.X, depth+1)
+		case *ssa.ChangeType:
+			return linOf(x.X, depth+1)
+		case *ssa.BinOp:
+			l, r := linOf(x.X, depth+1), linOf(x.Y, depth+1)
+			if !l.ok || !r.ok {
+				return lin{}
+			}
+			switch x.Op {
+			case token.ADD:
+				return lin{l.t + r.t, l.f + r.f, l.k + r.k, true}
+			case token.SUB:
+				return lin{l.t - r.t, l.f - r.f, l.k - r.k, true}
+			}
+			return lin{}
+		case *ssa.Extract:
+			if x.Index == 1 && valIsCallTo(fetch)(x.Tuple) {
+				return lin{0, 1, 0, true}
+			}
+		case *ssa.UnOp:
+			if fa, ok := x.X.(*ssa.FieldAddr); ok && x.Op == token.MUL && ir.FieldOfAddr(fa) == nodeHeight && ir.DerivesFrom(fa.X, valIsCallTo(back)) {
+				return lin{1, 0, 0, true}
+			}
+		}
+		return lin{}
+	}
+	_ = isFork
+	inLoop := ir.LoopBlocks(h)
+	var bad []string
+	exits := ir.LoopExits(h)
+	for _, e := range exits {
+		last := e.From.Instrs[len(e.From.Instrs)-1]
+		iff, ok := last.(*ssa.If)
+		if !ok {
+			bad = append(bad, "loop left at "+c.at(last)+" by something other than a condition")
+			continue
+		}
+		stop := "the summation can stop at " + c.at(iff) + " on a condition other than the height counter reaching its bound (e.g. the in-memory header list being exhausted): headers of the known chain below that point are not counted"
+		bo, ok := iff.Cond.(*ssa.BinOp)
+		if !ok {
+			bad = append(bad, stop)
+			continue
+		}
+		// counter: a phi of the loop header stepping by one
+		var phi *ssa.Phi
+		var bound ssa.Value
+		op := bo.Op
+		mirror := map[token.Token]token.Token{token.LSS: token.GTR, token.GTR: token.LSS, token.LEQ: token.GEQ, token.GEQ: token.LEQ}
+		neg := map[token.Token]token.Token{token.LSS: token.GEQ, token.GEQ: token.LSS, token.GTR: token.LEQ, token.LEQ: token.GTR}
+		if _, rel := mirror[op]; !rel {
+			bad = append(bad, stop)
+			continue
+		}
+		if p, ok := ir.Strip(bo.X).(*ssa.Phi); ok && p.Block() == h {
+			phi, bound = p, bo.Y
+		} else if p, ok := ir.Strip(bo.Y).(*ssa.Phi); ok && p.Block() == h {
+			phi, bound, op = p, bo.X, mirror[op]
+		} else {
+			bad = append(bad, stop)
+			continue
+		}
+		// e is the exit edge: the loop continues on the other one
+		if e.Succ == 0 {
+			op = neg[op] // exit on true: continuation is the negation
+		}
+		var init lin
+		step := int64(0)
+		okPhi := true
+		for i, ev := range phi.Edges {
+			if !inLoop[h.Preds[i]] {
+				init = linOf(ev, 0)
+				continue
+			}
+			sb, ok := ev.(*ssa.BinOp)
+			k, isC := int64(0), false
+			if ok && sb.X == ssa.Value(phi) {
+				k, isC = ir.ConstInt(sb.Y)
+			}
+			if !ok || !isC || k != 1 || (sb.Op != token.ADD && sb.Op != token.SUB) {
+				okPhi = false
+				continue
+			}
+			st := int64(1)
+			if sb.Op == token.SUB {
+				st = -1
+			}
+			if step != 0 && step != st {
+				okPhi = false
+			}
+			step = st
+		}
+		bl := linOf(bound, 0)
+		if !okPhi || !init.ok || !bl.ok || step == 0 {
+			bad = append(bad, "the loop at "+c.at(iff)+" is not a unit-step height counter between the list tail's height and the fork height")
+			continue
+		}
+		// trip count as a linear form
+		var trip lin
+		switch {
+		case step == -1 && op == token.GTR:
+			trip = lin{init.t - bl.t, init.f - bl.f, init.k - bl.k, true}
+		case step == -1 && op == token.GEQ:
+			trip = lin{init.t - bl.t, init.f - bl.f, init.k - bl.k + 1, true}
+		case step == 1 && op == token.LSS:
+			trip = lin{bl.t - init.t, bl.f - init.f, bl.k - init.k, true}
+		case step == 1 && op == token.LEQ:
+			trip = lin{bl.t - init.t, bl.f - init.f, bl.k - init.k + 1, true}
+		default:
+			bad = append(bad, "the counter at "+c.at(iff)+" steps away from its bound")
+			continue
+		}
+		if trip.t != 1 || trip.f != -1 || trip.k != 0 {
+			bad = append(bad, fmt.Sprintf("the loop at %s runs %d*tip %+d*fork %+d times instead of tip-fork: the known chain's work is summed over the wrong number of headers", c.at(iff), trip.t, trip.f, trip.k))
+		}
+	}
+	sort.Strings(bad)
+	c.verdict(len(bad) == 0 && len(exits) >= 1, construct, c.at(adds[0]), fmt.Sprintf("%d loop exit(s), each on a unit-step counter whose trip count is tipHeight - forkHeight", len(exits)), join(bad), c.at(adds[0]))
+	// one term per iteration
+	var starts []start
+	for i, sc := range h.Succs {
+		if inLoop[sc] {
+			starts = append(starts, atEdge(c, ir.Edge{From: h, Succ: i}, "iteration of the known-work loop"))
+		}
+	}
+	isAdd := func(in ssa.Instruction) bool { return in == adds[0] }
+	c.mustFollowIter(fn, "each height between tip and fork", starts, isAdd, "knownWork.Add(knownWork, CalcWork(header.Bits))", nil, 1)
 }
